@@ -31,8 +31,12 @@ def links_from_html(
 
         # urllib.parse.urljoin lowercases protocol...
         # NOTE: scheme-relative hrefs must be resolved too
+        # NOTE: a href that cannot be parsed is skipped, not raised
         if not PROTOCOL_RE.match(url) or url.startswith("//"):
-            url = urljoin(base_url, url)
+            try:
+                url = urljoin(base_url, url)
+            except ValueError:
+                continue
 
         if not is_url(
             url,
@@ -44,7 +48,10 @@ def links_from_html(
             continue
 
         if canonicalize:
-            url = canonicalize_url(url, strip_fragment=strip_fragment)
+            try:
+                url = canonicalize_url(url, strip_fragment=strip_fragment)
+            except ValueError:
+                continue
 
         if url == base_url:
             continue
